@@ -295,7 +295,7 @@ def build_case(rng, backend: str, depth: int) -> Case:
         V.append({"kind": kind, "term": term, "rel": rel, "strict": strict, **kw})
 
     # (c) metadata placement
-    for mode in ("top", "spread", "spread"):
+    for mode in ("top", "spread"):
         v = Vr.place(rng, q, mdt, mode)
         add("md-" + mode, v, {"kind": "md", "q": base, "q2": v, "need": "sameOrder"})
     v = Vr.place(rng, q, mdt, "free")
@@ -330,9 +330,9 @@ def build_case(rng, backend: str, depth: int) -> Case:
     # (a) wire
     try:
         txt = Vr.qastle_text(base)
-        add("wire", None, {"kind": "wire", "q": base, "q2": Vr.qastle_roundtrip(base)}, text=txt)
+        add("wire", None, {"kind": "wire", "q": base, "q2": Vr.qastle_roundtrip(base, txt)}, text=txt)
         txt2 = Vr.qastle_text(allv)
-        add("wire+combined", None, {"kind": "wire", "q": allv, "q2": Vr.qastle_roundtrip(allv)}, strict=False, text=txt2)
+        add("wire+combined", None, {"kind": "wire", "q": allv, "q2": Vr.qastle_roundtrip(allv, txt2)}, strict=False, text=txt2)
     except Exception as e:  # qastle refuses the query: counted, nothing to compare
         c.qastle_refused = type(e).__name__
     return c
@@ -602,12 +602,26 @@ def replay_case(backend: str, kind: str, base, v: Dict[str, Any]) -> Dict[str, A
     return d
 
 
-def compare_pair(ctx, case: Dict[str, Any]) -> Dict[str, Any]:
-    """Run base and variant of a stored case on the real pipeline and let Lean judge."""
+def run_pair(case: Dict[str, Any]) -> Tuple[Dict[str, Any], Dict[str, Any]]:
     T, _, _, P = _lib()
     base = T.of_json(case["base"])
+
+    def reset():
+        if case.get("reset_arg_counter"):  # func_adl's global counter of arg_N names: makes a listed collision reproducible
+            import func_adl.ast.function_simplifier as fs
+
+            fs.argument_var_counter = 0
+
+    reset()
     r0 = P.run_term(base, case["backend"])
+    reset()
     r1 = P.run_qastle_text(case["qastle"], case["backend"]) if "qastle" in case else P.run_term(T.of_json(case["variant"]), case["backend"])
+    return r0, r1
+
+
+def compare_pair(ctx, case: Dict[str, Any]) -> Dict[str, Any]:
+    """Run base and variant of a stored case on the real pipeline and let Lean judge."""
+    r0, r1 = run_pair(case)
     pk = Pkgs()
     req = {"op": "same", "a": pk.outcome(r0), "b": pk.outcome(r1)}
     a = ctx.driver(DRIVER, pk.puts + [req])[-1]
@@ -678,21 +692,27 @@ def procmd_stream(ctx, n: int):
 
 
 def known_stream(ctx):
-    T, _, _, _ = _lib()
-    for status in ("known", "fixed"):
-        for e in ctx.known_entries(status):
-            inp = e["input"]
-            if inp.get("kind") == "procmd":
-                continue
-            r = compare_pair(ctx, inp)
-            ctx.count(f"known-finding-replayed:{status}")
-            if not r["holds"]:
-                ctx.violation(
-                    key=e["key"] if status == "known" else "regressed:" + e["key"],
-                    what=e["what"],
-                    case=inp,
-                    observed={"lean": r["lean"], "base": summary(r["base"]), "variant": summary(r["variant"])},
-                )
+    """Replay every listed finding on the real code (one driver call for all of them)."""
+    T, _, _, P = _lib()
+    entries = [(st, e) for st in ("known", "fixed") for e in ctx.known_entries(st) if e["input"].get("kind") != "procmd"]
+    pk = Pkgs()
+    reqs, runs = [], []
+    for st, e in entries:
+        r0, r1 = run_pair(e["input"])
+        runs.append((r0, r1))
+        reqs.append({"op": "same", "a": pk.outcome(r0), "b": pk.outcome(r1)})
+    ans = ctx.driver(DRIVER, pk.puts + reqs)[len(pk.puts) :]
+    for (st, e), (r0, r1), a in zip(entries, runs, ans):
+        ctx.count(f"known-finding-replayed:{st}")
+        if "bad" in a:
+            continue
+        if not a.get("strict" if e["input"].get("strict", True) else "diag", False):
+            ctx.violation(
+                key=e["key"] if st == "known" else "regressed:" + e["key"],
+                what=e["what"],
+                case=e["input"],
+                observed={"lean": a, "base": summary(r0), "variant": summary(r1)},
+            )
 
 
 def run(ctx):
